@@ -42,7 +42,7 @@ def _coll(text, ref):
 CHECKS.update({
     "C13": _coll("(A) CollModel.tla: the reference semantics Coll!Sem model-checked as a state machine (conservation of elements, no aliasing, panic atomicity, length laws; complete, 28k states). (B) Every program is executed on bumpalo::collections::Vec<Tracked> and on std::vec::Vec<Tracked>; TLC validates both traces against Coll!Sem (return values, contents with element identity, panic/no-panic, capacity >= length and >= promised, neighbours/canaries undisturbed): all operations x all index/range arguments (incl. usize::MAX, every range form) on lengths 0..3(4), all pairs over a reduced alphabet, seeded random programs over two vectors/boxes; dbg and rel.", "6/C13"),
     "C15": _coll("Unique-id drop ledger per call; CollTrace checks NoDoubleDrop, DropsExactlyWhatTheCallLetsGo (Coll!Sem's drop set), conservation EveryElementAccountedForExactlyOnce (before + created = after + dropped + specified leaks, pairwise disjoint) on every call of every program, incl. partially consumed / leaked iterators and conversions; quiescence at program end.", "6/C15"),
-    "C16": _coll("Panic-point enumerator: for every callback-calling operation, every callback index (predicate, key fn, Clone, Drop, iterator step) as the panic point, with and without follow-up use; after unwinding CollTrace requires: no id dropped twice (now or later), no dropped/moved-out id reachable in any container, no duplicate ids, caller-held values not dropped; leaks allowed.", "6/C16"),
+    "C16": _coll("(A) PanicSafe.tla: DrainFilter/retain, truncate and String::retain as step machines with a panic at every callback and their unwinding guards, checked completely (code variants hold; pre-fix and seeded variants are refuted on every run). (B) Panic-point enumerator: for every callback-calling operation, every callback index (predicate, key fn, Clone, Drop, iterator step) as the panic point, with and without follow-up use; after unwinding CollTrace requires: no id dropped twice (now or later), no dropped/moved-out id reachable in any container, no duplicate ids, caller-held values not dropped; leaks allowed.", "6/C16"),
     "C17": _coll("Box programs (new_in, drop, into_inner, leak, into_raw/from_raw round trip, from_iter_in, Vec->boxed slice, Debug forwarding) on bumpalo and std Box twins validated against Coll!Sem; BoxDropReleasesNoMemory checks that no global-allocator free and no accounting change happens at Box drop.", "6/C17"),
 })
 CHECKS["C19"] = dict(category="model_checking", design_ref="6/C19",
@@ -91,6 +91,6 @@ CHECKS["C14"] = dict(category="model_checking", design_ref="6/C14",
     technique="TLA+ reference semantics + transcribed decoders + TLC trace validation of twin (bumpalo/std) executions")
 ENGINES.append(dict(name="tlc-str", path="spec/Str.tla spec/StrTrace.tla spec/StrModel.tla", serves_properties=["C14", "C16"],
     kind_free_text="TLA+ reference semantics of String and of the UTF-8/UTF-16 decoders; TLC trace validation of twin executions"))
-ENGINES.append(dict(name="tlc-coll", path="spec/Coll.tla spec/CollTrace.tla spec/CollModel.tla", serves_properties=["C13", "C15", "C16", "C17"],
+ENGINES.append(dict(name="tlc-coll", path="spec/Coll.tla spec/CollTrace.tla spec/CollModel.tla spec/PanicSafe.tla", serves_properties=["C13", "C15", "C16", "C17"],
     kind_free_text="TLA+ reference semantics of Vec/Box over element identities; TLC trace validation of twin executions"))
 NOT_APPLICABLE = {}
